@@ -697,8 +697,10 @@ func runC15(c *Ctx) error {
 			<-started
 			conn.WritevAsync(gws.OpcodeBinary, [][]byte{[]byte("A-"), []byte("writev")}, func(error) { rec("A") })
 			conn.WriteAsync(gws.OpcodeBinary, []byte("B-write"), func(error) { rec("B") })
+			conn.Async(nil) // an optional hook left unset: ignored, and it must not stop the queue
 			b := gws.NewBroadcaster(gws.OpcodeBinary, []byte("C-broadcast"))
 			_ = b.Broadcast(conn)
+			conn.WriteAsync(gws.OpcodePing, []byte("P-ping"), func(error) { rec("P") }) // a control frame waits its turn like any task
 			conn.WriteAsync(gws.OpcodeBinary, []byte("D-write"), func(error) { rec("D") })
 			conn.Async(func() { rec("end") })
 			time.Sleep(2 * time.Millisecond)
@@ -709,7 +711,7 @@ func runC15(c *Ctx) error {
 				mu.Lock()
 				n := len(order)
 				mu.Unlock()
-				if n >= 5 {
+				if n >= 6 {
 					break
 				}
 				time.Sleep(time.Millisecond)
@@ -730,10 +732,10 @@ func runC15(c *Ctx) error {
 			switch {
 			case wroteEarly != 0:
 				c.oracleFail(fmt.Sprintf("%d frame(s) reached the transport while an earlier task of the queue was still running (queued writes must wait their turn) [%s]", wroteEarly, tag), "async-write-outside-queue", replay)
-			case got != "blocker A B D end":
-				c.oracleFail(fmt.Sprintf("callbacks ran in order [%s], queued as [blocker A B D end] [%s]", got, tag), "async-callback-order", replay)
-			case strings.Join(wire, " ") != "A B C D":
-				c.oracleFail(fmt.Sprintf("messages reached the wire in order [%s], queued as [A B C D] [%s]", strings.Join(wire, " "), tag), "async-wire-order", replay)
+			case got != "blocker A B P D end":
+				c.oracleFail(fmt.Sprintf("callbacks ran in order [%s], queued as [blocker A B P D end] [%s]", got, tag), "async-callback-order", replay)
+			case strings.Join(wire, " ") != "A B C P D":
+				c.oracleFail(fmt.Sprintf("messages reached the wire in order [%s], queued as [A B C P D] [%s]", strings.Join(wire, " "), tag), "async-wire-order", replay)
 			}
 			_ = tap.Close()
 			c.count(tag, true, "kind=async-mixed")
